@@ -6,7 +6,8 @@
 (*                                                                         *)
 (* A raw step t = 1,2,.. carries, per parallel environment e, a reward and *)
 (* a done flag.  Row (t,e) of both buffers is identified by <<t,e>>.       *)
-(* gamma = 1/2^gexp; returns are scaled by 2^(gexp*(n-1)) so they are      *)
+(* gamma = 1/2^gexp (or gnum/gden when par carries these fields); returns  *)
+(* are scaled by gden^(n-1) = 2^(gexp*(n-1)) so they are                    *)
 (* integers.  The specification is *permissive exactly as the property*:   *)
 (* AllowedK(e) is the set of window lengths the statement permits; ImplK   *)
 (* is the rule the implementation follows and must be one of them.         *)
@@ -60,7 +61,13 @@ AllowedK(w, e) == {k \in 1..OwnEnd(w, e) : k = OwnEnd(w, e) \/ AnyEndAt(w, k)}
 \* environment is done
 ImplK(w)       == IF \E i \in 1..n : AnyEndAt(w, i) THEN Min({i \in 1..n : AnyEndAt(w, i)}) ELSE n
 
-Ret(w, e, k) == SumTo([i \in 1..k |-> Pow2(par.gexp * (n - i)) * w[i].rew[e]], k)
+\* gamma = GNum / GDen (by default 1 / 2^gexp); the weight of the i-th reward of a window, scaled by GDen^(n-1)
+RECURSIVE PowN(_, _)
+PowN(b, k) == IF k = 0 THEN 1 ELSE b * PowN(b, k - 1)
+GNum == IF "gnum" \in DOMAIN par THEN par.gnum ELSE 1
+GDen == IF "gden" \in DOMAIN par THEN par.gden ELSE Pow2(par.gexp)
+Wt(i) == PowN(GNum, i - 1) * PowN(GDen, n - i)
+Ret(w, e, k) == SumTo([i \in 1..k |-> Wt(i) * w[i].rew[e]], k)
 Fused(h, e, k) == LET w == WinOf(h) IN
   [t |-> T0(h), e |-> e, k |-> k, ret |-> Ret(w, e, k), done |-> w[k].done[e]]
 
@@ -103,7 +110,7 @@ NoCross == \A i \in Live(nstore, sizeN) : LET r == nstore[i] IN
 \* last step it summed
 ReturnDef == \A i \in Live(nstore, sizeN) : LET r == nstore[i] IN
               /\ r.k \in 1..n
-              /\ r.ret = SumTo([j \in 1..r.k |-> Pow2(par.gexp * (n - j)) * hist[r.t + j - 1].rew[r.e]], r.k)
+              /\ r.ret = SumTo([j \in 1..r.k |-> Wt(j) * hist[r.t + j - 1].rew[r.e]], r.k)
               /\ r.done = hist[r.t + r.k - 1].done[r.e]
 \* a record stops before n only at an episode end (own, or the permitted joint cut)
 StopsOnlyAtEnd == \A i \in Live(nstore, sizeN) : LET r == nstore[i] IN
